@@ -1,6 +1,8 @@
 package props
 
 import (
+	"math"
+	"reflect"
 	"regexp"
 	"runtime/debug"
 	"strings"
@@ -48,4 +50,80 @@ func clipStr(s string, n int) string {
 		return s[:n] + "…"
 	}
 	return s
+}
+
+// sameValue is reflect.DeepEqual with floats compared bit for bit (NaN equals
+// the same NaN): corrupted inputs legitimately decode to NaN, which DeepEqual
+// never finds equal to itself.
+func sameValue(a, b any) bool {
+	return sameRV(reflect.ValueOf(a), reflect.ValueOf(b), 0)
+}
+
+func sameRV(a, b reflect.Value, depth int) bool {
+	if a.IsValid() != b.IsValid() {
+		return false
+	}
+	if !a.IsValid() {
+		return true
+	}
+	if a.Type() != b.Type() {
+		return false
+	}
+	if depth > 64 {
+		return reflect.DeepEqual(a.Interface(), b.Interface())
+	}
+	switch a.Kind() {
+	case reflect.Float32, reflect.Float64:
+		return math.Float64bits(a.Float()) == math.Float64bits(b.Float())
+	case reflect.Complex64, reflect.Complex128:
+		return a.Complex() == b.Complex()
+	case reflect.Ptr, reflect.Interface:
+		if a.IsNil() || b.IsNil() {
+			return a.IsNil() == b.IsNil()
+		}
+		return sameRV(a.Elem(), b.Elem(), depth+1)
+	case reflect.Struct:
+		for i := 0; i < a.NumField(); i++ {
+			if !sameRV(a.Field(i), b.Field(i), depth+1) {
+				return false
+			}
+		}
+		return true
+	case reflect.Slice:
+		if a.IsNil() != b.IsNil() || a.Len() != b.Len() {
+			return false
+		}
+		fallthrough
+	case reflect.Array:
+		for i := 0; i < a.Len(); i++ {
+			if !sameRV(a.Index(i), b.Index(i), depth+1) {
+				return false
+			}
+		}
+		return true
+	case reflect.Map:
+		if a.IsNil() != b.IsNil() || a.Len() != b.Len() {
+			return false
+		}
+		it := a.MapRange()
+		for it.Next() {
+			bv := b.MapIndex(it.Key())
+			if !bv.IsValid() || !sameRV(it.Value(), bv, depth+1) {
+				return false
+			}
+		}
+		return true
+	case reflect.String:
+		return a.String() == b.String()
+	case reflect.Bool:
+		return a.Bool() == b.Bool()
+	case reflect.Int, reflect.Int8, reflect.Int16, reflect.Int32, reflect.Int64:
+		return a.Int() == b.Int()
+	case reflect.Uint, reflect.Uint8, reflect.Uint16, reflect.Uint32, reflect.Uint64, reflect.Uintptr:
+		return a.Uint() == b.Uint()
+	}
+	if a.CanInterface() && b.CanInterface() {
+		return reflect.DeepEqual(a.Interface(), b.Interface())
+	}
+	return true
 }
